@@ -682,7 +682,7 @@ def run_rt(cx, laws=("roundtrip", "independent")):
             case["reparse_error"] = unhex(r[4]).decode("utf-8", "replace") if len(r) > 4 else ""
             case["triage"] = triage_cell(s, cell, unhex(r[2]), unhex(r[3]), case["reparse_error"])
         fo, wd, c = cell
-        cx.fail("rt", "print(%s, with-defaults %s) -> parse does not give back the tree (%s)" % (fo, wd, {"!": "differs", "P": "print failed", "R": "own output rejected"}[c]), case)
+        cx.fail("rt", "print(%s, with-defaults %s) -> parse does not give back the tree (%s)" % (fo, wd, {"!": "differs", "P": "print failed", "R": "own output rejected", "S": "a top-level tree printed on its own (no WITHSIBLINGS) does not parse back to that tree"}[c]), case)
     if lines:
         cx.sample(lines[1][:400])
 
